@@ -68,7 +68,11 @@ def _lexicon(lex_id, entries, synsets):
         le = {'id': f'{lex_id}-e{i}',
               'lemma': {'writtenForm': e['lemma'], 'partOfSpeech': e['pos']}, 'meta': None}
         if e['forms']:
-            le['forms'] = [{'writtenForm': f} for f in e['forms']]
+            # the same irregular form may be stored with different scripts by different
+            # entries: it is still one string for Morphy
+            le['forms'] = [dict({'writtenForm': f},
+                                **({'script': ('Latn', 'Zyyy')[i % 2]} if i % 3 else {}))
+                           for f in e['forms']]
         if e['senses']:
             le['senses'] = [{'id': f'{lex_id}-e{i}-s{k}', 'synset': ss, 'meta': None}
                             for k, ss in enumerate(e['senses'])]
